@@ -77,3 +77,62 @@ Proof.
     rewrite (proj1 (ledger_step_read_mono (ledger_run [] (trace (env_of c m be) init ops)) o r t0 Hcr)) in Hs, Hu.
     split; [exact Hs|]. exists k. split; [exact Hk|exact Hu].
 Qed.
+
+(* ------------------------------------------------------------------ any mode, histories WITH restarts *)
+(* GM along a history with restarts, with the explicit ledger [gm_ledger] (EngineSinceR.v): ledger_step at every
+   operation, rolled back to the recovered position at every restart *)
+From W Require Import proofs.EngineSinceR.
+
+Theorem GM_ledger_reachable c m be : cfg_ok c -> forall ops s g B Bb,
+  GM c s g B Bb -> outside_known (env_of c m be) s ops = true ->
+  B + N.of_nat (length (offered_all ops)) <= u64_max -> Bb + sum_len (offered_all ops) <= u64_max ->
+  GM c (exec (env_of c m be) s ops) (gm_ledger (env_of c m be) s g ops)
+     (B + N.of_nat (length (offered_all ops))) (Bb + sum_len (offered_all ops)).
+Proof.
+  intros Hc. induction ops as [|o r IH]; intros s g B Bb HG Hout HB HBb.
+  { cbn [exec gm_ledger offered_all length sum_len fold_right]. replace (B + N.of_nat 0) with B by lia. replace (Bb + 0) with Bb by lia. exact HG. }
+  cbn [outside_known] in Hout. apply andb_true_iff in Hout. destruct Hout as (Ho & Hout).
+  cbn [offered_all] in *. rewrite app_length, Nat2N.inj_add in *. rewrite sum_len_app in *. cbn [exec gm_ledger].
+  assert (Hnext : GM c (fst (step (env_of c m be) s o))
+                    (match o with OReopen => map (rbl (v_cfg (env_of c m be)) s) g | _ => ledger_step g o (snd (step (env_of c m be) s o)) end)
+                    (B + N.of_nat (length (offered o))) (Bb + sum_len (offered o))).
+  { destruct o as [t e | t es | t ck | t maxb ck start | t | ].
+    1-5: (match goal with |- context [step _ _ ?o] =>
+            apply (GM_step c m be s g B Bb o Hc HG I); lia end).
+    cbn [step env_of v_cfg fst offered length sum_len fold_right] in *. apply negb_true_iff in Ho.
+    replace (B + N.of_nat 0) with B by lia. replace (Bb + 0) with Bb by lia.
+    exact (proj1 (GM_reopen c s g B Bb Hc HG Ho)). }
+  pose proof (IH _ _ _ _ Hnext Hout ltac:(lia) ltac:(lia)) as HG'.
+  replace (B + (N.of_nat (length (offered o)) + N.of_nat (length (offered_all r)))) with (B + N.of_nat (length (offered o)) + N.of_nat (length (offered_all r))) by lia.
+  replace (Bb + (sum_len (offered o) + sum_len (offered_all r))) with (Bb + sum_len (offered o) + sum_len (offered_all r)) by lia.
+  exact HG'.
+Qed.
+
+(* crash BETWEEN two operations of ANY history with restarts outside block-id drift, ANY mode: the fresh
+   process holds the acknowledged stream and hands the consumer a suffix starting at or before its true
+   position ([l_del] of the rolled-back ledger): entries may be delivered again, none is skipped *)
+Theorem crash_between_operations_never_skips_with_restarts c m be ops : cfg_ok c ->
+  outside_known (env_of c m be) init (ops ++ [OReopen]) = true ->
+  N.of_nat (length (offered_all ops)) <= u64_max -> sum_len (offered_all ops) <= u64_max ->
+  let s := exec (env_of c m be) init ops in
+  let g := gm_ledger (env_of c m be) init [] ops in
+  forall t x,
+    stream (get_ts (reopen c s) t) = l_app (lget g t) /\
+    (l_del (lget g t) <= length (l_app (lget g t)))%nat /\
+    unread c (nrm x (get_ts s t)) = skipn (l_del (lget g t)) (l_app (lget g t)) /\
+    exists k, (k <= l_del (lget g t))%nat /\
+              unread c (nrm x (get_ts (reopen c s) t)) = skipn k (l_app (lget g t)).
+Proof.
+  intros Hc Hout HB HBb. cbn zeta. pose proof Hc as (_ & Hb0 & _).
+  destruct (outside_known_split _ ops init Hout) as (Hout1 & Hk). cbn [env_of v_cfg] in Hk.
+  pose proof (GM_ledger_reachable c m be Hc ops init [] 0 0 (GM_init c Hb0) Hout1 ltac:(lia) ltac:(lia)) as HG.
+  set (s := exec (env_of c m be) init ops) in *. set (g := gm_ledger (env_of c m be) init [] ops) in *.
+  destruct (GM_reopen c s g _ _ Hc HG Hk) as (HG' & Hrb).
+  intros t x. destruct (Hrb t) as (Ha & Hdl).
+  pose proof HG as (_ & _ & _ & _ & Hall). pose proof HG' as (_ & _ & _ & _ & Hall').
+  destruct (proj2 (Hall t) x) as (_ & _ & Hle & _ & Hun & _).
+  destruct (proj2 (Hall' t) x) as (_ & _ & _ & Hst' & Hun' & _).
+  rewrite nrm_stream in Hst'. rewrite Ha in Hst', Hun'.
+  repeat split; [exact Hst'|exact Hle|exact Hun|].
+  exists (l_del (lget (map (rbl c s) g) t)). split; [exact Hdl|exact Hun'].
+Qed.
